@@ -72,6 +72,11 @@ def scenarios(c):
     for alg in ('h', 'y') if c.tier != 'thorough' else 'haxy':
         for k in (1, 2, 3, 4, 9):
             S.append({'kind': 'sumlistfault', 'alg': alg, 'nfiles': 120, 'k': k}); c.distinct([('sumlistfault', alg, k)])
+    # ... and when the k-th write to standard output fails (800 names = several stdio buffers of output)
+    for alg in ('h',) if c.tier != 'thorough' else 'haxy':
+        for chk in (0, 1):
+            for k in (1, 2, 3, 30):
+                S.append({'kind': 'sumwritefault', 'alg': alg, 'nfiles': 800 if not chk else 300, 'k': k, 'check': chk}); c.distinct([('sumwritefault', alg, chk, k)])
     return S
 
 def run(c):
@@ -84,7 +89,7 @@ def run(c):
     S = scenarios(c)
     rc, out = sh(['strace', '-o', '/dev/null', '-e', 'trace=read', 'true'], timeout=30)
     if rc != 0:      # ptrace not available here: the stdio read-fault scenarios cannot be run (said so in the evidence)
-        S = [s for s in S if s['kind'] not in ('sumfault', 'sumlistfault')]
+        S = [s for s in S if s['kind'] not in ('sumfault', 'sumlistfault', 'sumwritefault')]
         c.assumptions.append('strace could not attach in this environment: asconsum read-error scenarios were skipped in this run')
     c.tv_tools(S, 'rel', 'tools', per_shard=30)
     c.cov['exhaustive'] = True
